@@ -398,6 +398,11 @@ func (c *Ctx) applyContract(st *State, fr *Frame, fc *FuncContract, tgt callTarg
 		}
 	}
 	bindResults(env2, tgt.sig, rts)
+	if fc.Defines != nil && len(rts) == 1 {
+		// definitional name of the returned closure (its structure is checked where the constructor is verified)
+		st.assume(eq(rts[0], env2.eval(*fc.Defines)))
+		st.assume(not(eq(rts[0], tZero)))
+	}
 	for _, cl := range fc.Clauses {
 		if cl.Kind != "ensures" {
 			continue
